@@ -59,7 +59,10 @@ func reflectMap(v interface{}) (reflect.Value, bool) {
 		return rv, false
 	}
 	rt := rv.Type()
-	for rv.Kind() == reflect.Interface || rv.Kind() == reflect.Pointer {
+	for n := 0; rv.Kind() == reflect.Interface || rv.Kind() == reflect.Pointer; n++ {
+		if n > maxLevel {
+			return rv, false
+		}
 		rv = rv.Elem()
 		if isNil(rv) {
 			// 指向 nil 指针/nil 接口的指针: 不是 map, 交给 TypeOf/ValOf 报错
